@@ -33,7 +33,11 @@ class WritesFrame:
             return True
         if isinstance(v, ast.Call):
             nm = ast.unparse(v.func).split(".")[-1]
-            return nm not in self.VIEW_CALLS
+            if nm in self.VIEW_CALLS:
+                # a view of a fresh object is the function's own: xp.asarray(xp.round(x), dtype=int)
+                return bool(v.args) and isinstance(v.func, ast.Attribute) and isinstance(v.func.value, ast.Name) \
+                    and v.func.value.id in ("xp", "np", "numpy") and self.fresh(v.args[0])
+            return True
         if isinstance(v, ast.IfExp):
             return self.fresh(v.body) and self.fresh(v.orelse)
         return False
